@@ -12,11 +12,11 @@ import (
 
 // The property says "terminates". A call that has not returned after `deadline` is a SUSPECT; the same execution is
 // then given until `longDeadline`: only a call that still has not returned is reported as not terminating. A call that
-// needs more than `slowThreshold` is recorded as an observation (evidence: slow_cases), never as a violation.
+// needs more than `slowThreshold` (2 s) is recorded as an observation (evidence: slow_cases), never as a violation.
 var (
 	deadline      = 5 * time.Second
 	longDeadline  = 120 * time.Second
-	slowThreshold = time.Second
+	slowThreshold = 2 * time.Second
 )
 
 // outcome of one guarded execution.
@@ -260,8 +260,10 @@ func (g *guard) measure(f func() error) (outcome, uint64) {
 // while it looked, a few hundred KB for the fastest churners in a process that holds next to nothing itself). A call
 // shorter than a few collections is repeated (its result dropped each time) until enough readings were taken.
 func (g *guard) peak(f func() error) (outcome, uint64) {
-	old := debug.SetGCPercent(10)
-	defer debug.SetGCPercent(old)
+	oldP := debug.SetGCPercent(-1)
+	oldL := debug.SetMemoryLimit(1) // always over the limit: the collector runs whenever there is anything to collect, and the
+	defer debug.SetGCPercent(oldP)  // allocating goroutine itself is made to help (assists), whatever else the machine is doing
+	defer debug.SetMemoryLimit(oldL)
 	runtime.GC()
 	var ms runtime.MemStats
 	runtime.ReadMemStats(&ms)
@@ -278,18 +280,18 @@ func (g *guard) peak(f func() error) (outcome, uint64) {
 				return
 			default:
 			}
-			runtime.GC()
 			runtime.ReadMemStats(&m)
 			if m.HeapAlloc > top.Load() {
 				top.Store(m.HeapAlloc)
 			}
 			samples.Add(1)
+			time.Sleep(100 * time.Microsecond)
 		}
 	}()
 	o := g.run(func() error {
 		t0 := time.Now()
 		err := f()
-		for i := 0; i < 2000 && samples.Load() < 6 && time.Since(t0) < 50*time.Millisecond; i++ {
+		for i := 0; i < 2000 && samples.Load() < 20 && time.Since(t0) < 50*time.Millisecond; i++ {
 			err = f()
 		}
 		return err
